@@ -122,6 +122,10 @@ def leaf_spaces():
     for (lo, hi) in ((NINF, PINF), (-2, 4), (0, 0), (NINF, 0), (2, PINF)):
         for shape in ((), (2,), (2, 2)):
             out.append(sp("Box", shape=shape, lo=lo, hi=hi))
+    # every sign pattern of half-bounded and bounded boxes (canonical() / sample() take different branches for each)
+    for (lo, hi) in ((NINF, -4), (NINF, 6), (-6, PINF), (-6, -2), (2, 8)):
+        for shape in ((), (2,)):
+            out.append(sp("Box", shape=shape, lo=lo, hi=hi))
     out += [sp("MultiBinary", shape=(2,)), sp("MultiBinary", shape=(3,)), sp("MultiBinary", shape=(2, 3))]
     out += [sp("MultiDiscrete", nvec=(3,)), sp("MultiDiscrete", nvec=(2, 3)), sp("MultiDiscrete", nvec=(3, 3))]
     return out
